@@ -397,7 +397,17 @@ func main() {
 	nMal := flag.Int("mal", 1000, "number of mutated well-formed texts")
 	shortLen := flag.Int("short", 4, "all strings over the short alphabet up to this length (-1: none)")
 	textsPath := flag.String("texts", "", "ndjson of {\"t\":[bytes]}: extra texts run as class mal (replay)")
+	nMgr := flag.Int("mgr", 0, "direct addresses through the endpoint manager: at most this many cases beside class bind (-1: all, 0: none)")
+	nAdp := flag.Int("adp", 0, "endpoint lines of server adapters read by child processes: at most this many cases beside class bind (-1: all, 0: none)")
+	mgrList := flag.Bool("mgrlist", false, "replay: all cases form one address list")
+	scratch := flag.String("dir", "", "scratch directory of the adapter children (default: beside -out)")
+	childConf := flag.String("childconf", "", "child mode: the server configuration of this process")
+	childOut := flag.String("childout", "", "child mode: where to report")
 	flag.Parse()
+	if *childConf != "" {
+		childMain(*childConf, *childOut)
+		return
+	}
 	// the flag package inside endpoint.Parse reports every malformed text on os.Stderr: silence it
 	if dn, err := os.OpenFile(os.DevNull, os.O_WRONLY, 0); err == nil {
 		os.Stderr = dn
@@ -420,6 +430,7 @@ func main() {
 		}
 	}
 	var optCases []caseJ
+	var siteCases []siteCase
 	counts := map[string]int{}
 	if *casesPath != "" {
 		fh, err := os.Open(*casesPath)
@@ -444,6 +455,7 @@ func main() {
 				continue
 			}
 			optCases = append(optCases, c)
+			siteCases = append(siteCases, siteCase{c, ci})
 			if c.Text != "" {
 				put(runOpt(c, ci, 0, c.Text))
 				counts["opt"]++
@@ -462,6 +474,23 @@ func main() {
 			fail(err)
 		}
 		fh.Close()
+	}
+	if len(siteCases) > 0 && (*nMgr != 0 || *nAdp != 0) {
+		if *scratch == "" {
+			*scratch = *outPath + ".children"
+		}
+		putSite := func(r siteRec) {
+			id++
+			r.ID = id
+			if err := w.Write(r); err != nil {
+				fail(err)
+			}
+		}
+		// own generator: the renderings of the opt records do not depend on which sites are run
+		if err := runSites(rand.New(rand.NewSource(*seed*7919+11)), siteCases, *nMgr, *nAdp, *mgrList, *scratch, putSite, counts); err != nil {
+			fail(err)
+		}
+		os.RemoveAll(*scratch)
 	}
 	if len(optCases) > 0 {
 		for i := 0; i < *nMal; i++ {
